@@ -74,7 +74,7 @@ def _limit_memory():
         try:
             import resource
             soft, hard = resource.getrlimit(resource.RLIMIT_AS)
-            cap = 6 * 2 ** 30
+            cap = 2 * 2 ** 30
             if soft == resource.RLIM_INFINITY or soft > cap:
                 resource.setrlimit(resource.RLIMIT_AS, (cap, hard))
         except Exception:  # noqa
@@ -400,7 +400,10 @@ def compare_parsed(out, tx, exp, in_names=None, out_names=None, tagp="parse"):
         null = b.prev_hash == NULL32
         if a.is_coinbase != null:
             return out.violate(tagp + ":input.is_coinbase", "input %d" % n)
-        got = a.coinbase if null else a.script.source
+        got = a.coinbase if null else getattr(a.script, "source", None)
+        if not isinstance(got, bytes):
+            return out.violate(tagp + ":input.script-type", "input %d: coinbase=%r script=%r" % (
+                n, type(a.coinbase).__name__, type(a.script).__name__))
         if got != b.script:
             return out.violate(tagp + ":input.script", "input %d: %s != %s" % (n, hx(got), hx(b.script)))
         if a.position != n:
